@@ -33,8 +33,9 @@ def inv(records, next_uid):
 class UidListCtx:
     """context-manager model of UidList.with_write(path) (see module docstring)"""
 
-    def __init__(self, may_remove=False, may_drop=None):
+    def __init__(self, may_remove=False, may_drop=None, on_enter=None):
         self.may_remove = may_remove
+        self.on_enter = on_enter        # (ex, frame, which list, the record) -> None: facts about the list just read
         self.may_drop = may_drop        # (ex, frame) -> z3 predicate over a uid term: the one record the block may drop
 
     def __call__(self, ex, frame, item, phase):
@@ -49,6 +50,9 @@ class UidListCtx:
             ex.st.ghost['uidl.old_next'] = VInt(_t(nxt))
             ex.st.ghost['uidl.rid'] = uidl
             ex.st.events.append('uidlist.open')
+            if self.on_enter is not None:
+                import ast as _ast
+                self.on_enter(ex, frame, _ast.unparse(item.context_expr.args[0]), uidl)
             if item.optional_vars is not None:
                 ex.assign(item.optional_vars, uidl, frame)
             return
@@ -59,8 +63,11 @@ class UidListCtx:
         oldn = ex.st.ghost['uidl.old_next']
         ex.oblige(f'{name}/uidlist_written/UidListInv', _b(inv(recs, nxt)))
         ex.oblige(f'{name}/uidlist_written/next_uid_never_goes_down', _b(nxt >= oldn))
+        import ast as _ast
+        which = _ast.unparse(item.context_expr.args[0]) if getattr(item.context_expr, 'args', None) else ''
+        ex.st.ghost.setdefault('uidl.finals', []).append((which, ex.st.store[uidl.rid]['_records']))
         if not self.may_remove:
-            drop = self.may_drop(ex, frame) if self.may_drop is not None else (lambda u: z3.BoolVal(False))
+            drop = self.may_drop(ex, frame, which) if self.may_drop is not None else (lambda u: z3.BoolVal(False))
             ex.oblige(f'{name}/uidlist_written/no_recorded_uid_is_dropped_or_given_to_another_message',
                       _b(forall(lambda u: implies(old.has(u) & ~VBool(drop(_t(u))), recs.has(u) & (recs[u] == old[u])) &
                                 implies(old.has(u) & recs.has(u), recs[u] == old[u]), sort=INT)))
@@ -219,10 +226,41 @@ def _move_message(ex, frame, e, base=None):
     return Str.fresh('new_filename')
 
 
-def _moved_within_the_same_mailbox(ex, frame):
-    """a move into the mailbox itself re-numbers the message: the record of its old uid (and only that one) is dropped"""
+def _moved_within_the_same_mailbox(ex, frame, which):
+    """the one record a MOVE may drop: that of the moved message's old uid, in the list of the mailbox it leaves -- the
+    source's list (`self._path`) when the file went to another mailbox, the destination's when source and destination are
+    the same mailbox (the message is re-numbered); never a record of a different destination"""
     me, dest, uid = ex.frames[0].env['self'], ex.frames[0].env['destination'], ex.frames[0].env['uid']
+    if which == 'self._path':
+        return lambda u: u == _t(uid)
     return lambda u: z3.And(me.t == dest.t, u == _t(uid))
+
+
+def _found_in_the_source_list_before(ex, frame, which, uidl):
+    """LINK (rely on the UID-list file, guaranteed by every verified writer): the moved message's record was found in the
+    source mailbox's list at the start of move(), so uid < that list's next_uid then (UidListInv), and next_uid of a list
+    never goes down (obligation next_uid_never_goes_down of every writer): uid < next_uid still holds whenever the source
+    mailbox's list is read again -- under `self._path`, or under `destination._path` when both are the same mailbox"""
+    me, dest, uid = ex.frames[0].env['self'], ex.frames[0].env['destination'], ex.frames[0].env['uid']
+    nxt = _t(ex.st.store[uidl.rid]['next_uid'])
+    if which == 'self._path':
+        ex.assume(_t(uid) < nxt)
+    else:
+        ex.assume(z3.Implies(me.t == dest.t, _t(uid) < nxt))
+
+
+def _old_uid_is_gone(s):
+    """after a successful MOVE no list written by it still maps the old uid of the source mailbox: the file keeps its
+    name, so a surviving record would revive the expunged uid as soon as the file is moved back"""
+    finals = dict(s._st.ghost.get('uidl.finals', []))
+    same = _t(s.self) == _t(s.destination)
+    lacks = {k: z3.Not(_b(_MapView(v).has(_t(s.uid)))) for k, v in finals.items()}
+    dst = lacks.get('destination._path', z3.BoolVal(False))
+    if 'self._path' in lacks:
+        body = z3.If(same, dst, lacks['self._path'])
+    else:
+        body = z3.And(same, dst)
+    return implies(~is_none(s.result), VBool(body))
 
 
 class _Stack:
@@ -245,9 +283,10 @@ def _uidl_remove(ex, frame, e, base=None):
 move = Contract(
     'C15', F, 'MailboxData.move', params=dict(self=MBX, uid=INT, destination=MBX, recent=BOOL),
     calls=dict(_CALLS, **{'UidList.with_read': _ReadCtx(), 'uidl.get': _uidl_get, 'maildir.move_message': _move_message,
-                          'UidList.with_write': UidListCtx(may_drop=_moved_within_the_same_mailbox), 'AsyncExitStack': _Stack(),
+                          'UidList.with_write': UidListCtx(may_drop=_moved_within_the_same_mailbox, on_enter=_found_in_the_source_list_before), 'AsyncExitStack': _Stack(),
                           'stack.enter_async_context': lambda ex, frame, e, base=None: VNone(), 'uidl.remove': _uidl_remove}),
     ensures=[('hands_out_exactly_the_old_next_uid_of_the_destination', lambda s: implies(~is_none(s.result), _new_uid_facts(s))),
+             ('the_old_uid_is_dropped_from_the_list_of_the_mailbox_it_left', _old_uid_is_gone),
              ('nothing_is_written_when_the_source_is_gone', lambda s: implies(is_none(s.result), VBool('uidlist.written' not in s._st.events)))],
     raises_only=(), ghost_init=_ghost0, returns=OptS(INT))
 move.attr_models = {('Record', 'uid'): _rec_uid}
